@@ -191,13 +191,17 @@ func (cs *clientState) releaseCapture() {
 
 // Tells a blocking command (if any) to end with a timeout or error.
 // For a timeout, pass reason as an empty string and isError false.
-func (cs *clientState) unblock(reason string, isError bool) {
+//
+// Returns true if the client was inside a blocking command when the request
+// was made.
+func (cs *clientState) unblock(reason string, isError bool) (wasBlocked bool) {
 	us := time.Microsecond
 
 	for {
 		// N.B., checking is allowed in the midst of capture and release
 		locked := atomic.SwapInt32(&cs.blocked, CS_CHECKING)
 		if locked == CS_CAPTURED {
+			wasBlocked = true
 			// client is probably in select waiting for the unblock
 			if atomic.CompareAndSwapInt32(&cs.unblockPending, 0, 1) {
 				// only one unblock is posted per capture to prevent
